@@ -7,5 +7,4 @@ CONSTANTS
   Grid = 3
   EmitMod = 1
 INVARIANT ImplIsAdmissible
-INVARIANT LinearFormsAgree
 CHECK_DEADLOCK FALSE
